@@ -1,0 +1,8 @@
+//go:build verif
+
+package meta
+
+// VerifSetBcryptCost sets the bcrypt cost used for password hashes (the package's own
+// tests lower it the same way) so that the race-detector stress harness can run many
+// authentication rounds.
+func VerifSetBcryptCost(cost int) { bcryptCost = cost }
